@@ -174,9 +174,13 @@ class EndpointsEmitter:
         tag_key_to_candidates: dict[str, List[str]] = {}
         for op in operations:
             tags = op.tags or [DEFAULT_TAG]
+            keys_of_op: set[str] = set()
             for tag in tags:
                 key = NameSanitizer.normalize_tag_key(tag)
-                tag_key_to_ops.setdefault(key, []).append(op)
+                # Two spellings of one tag (e.g. "Data Sources" and "data_sources") must not define the operation twice
+                if key not in keys_of_op:
+                    keys_of_op.add(key)
+                    tag_key_to_ops.setdefault(key, []).append(op)
                 tag_key_to_candidates.setdefault(key, []).append(tag)
 
         def tag_score(t: str) -> tuple[bool, int, int, str]:
